@@ -144,6 +144,12 @@ class Session:
         return (self.code(g._unitSteps), self.code(g._bounds), self.code(g._offset))
 
     def backup_depth(self, o):
+        try:
+            return self._backup_depth(o)
+        except Exception:
+            return "?"
+
+    def _backup_depth(self, o):
         n, b = 0, o.p._backup
         while b is not None:
             n += 1
@@ -153,12 +159,26 @@ class Session:
 
     @staticmethod
     def chain_depth(x, last=True):
-        """depth of a nested (.., prev) / (prev, ..) tuple chain"""
-        n = 0
-        while x is not None:
-            n += 1
-            x = x[-1] if last else x[0]
-        return n
+        """depth of a nested (.., prev) / (prev, ..) tuple chain, or of a list used as a stack; '?' if the private
+        representation is something else (the field is then left out of the comparison: the LIFO behaviour itself is
+        checked through the values at every scope exit)"""
+        try:
+            if isinstance(x, list):
+                return len(x)
+            n = 0
+            while x is not None:
+                if not isinstance(x, tuple) or not x:
+                    return "?"
+                n += 1
+                nxt = x[-1] if last else x[0]
+                if nxt is not None and not isinstance(nxt, tuple):
+                    return "?"
+                x = nxt
+                if n > 64:
+                    return "?"
+            return n
+        except Exception:
+            return "?"
 
     def obj_line(self, o):
         vs = "[" + ",".join(str(self.code(self.val(o, pd))) for pd in self.pdefs(o)) + "]"
@@ -166,7 +186,7 @@ class Session:
         g = self.grid_triple(o)
         gs = "_" if g is None else f"({g[0]},{g[1]},{g[2]})"
         gb = 0 if o.spatialGrid is None else self.chain_depth(getattr(o.spatialGrid, "_backup", None), last=True)
-        return (f"v{vs} a{o.p.assigned} b{self.backup_depth(o)} c{ck} cb{self.chain_depth(o._backupCache, last=True)} "
+        return (f"v{vs} a{o.p.assigned} b{self.backup_depth(o)} c{ck} cb{self.chain_depth(getattr(o, '_backupCache', None), last=True)} "
                 f"g{gs} gb{gb} s{o.p.serialNum} r{'T' if o.p.readOnly else 'F'}")
 
     def lines(self, objs):
@@ -548,6 +568,77 @@ def do_grid(ses, t):
     ses.emit(f"grid {ses.ids[id(t)]} [{tr[0]},{tr[1]},{tr[2]}]", "ok " + ses.obj_line(t))
 
 
+def _emit_assign(ses, t, name, compare=True):
+    pd = t.p.paramDefs[name]
+    ses.log.append(f"set {ses.ids[id(t)]} {name}")
+    ses.emit(f"set {ses.ids[id(t)]} {ses.did(pd)} {ses.code(ses.val(t, pd))}",
+             ("ok " + ses.obj_line(t) + f" d{pd.assigned}") if compare else None)
+
+
+def do_axial(ses, a):
+    """change a block height and rebuild the assembly's axial mesh: `b.p.height = h; a.calculateZCoords()` -- the
+    assembly grid's bounds are replaced and z / zbottom / ztop of every block are assigned"""
+    rng = ses.rng
+    blocks = [b for b in a if type(b).__name__.endswith("Block")]
+    if not blocks or a.spatialGrid is None or a.p.readOnly or any(b.p.readOnly for b in blocks):
+        return False
+    if not all(default_setter(blocks[0].p.paramDefs[n]) for n in ("height", "z", "zbottom", "ztop")):
+        return False
+    b = rng.choice(blocks)
+    b.p.height = b.p.height * rng.choice([1.25, 0.5, 2.0])
+    _emit_assign(ses, b, "height")
+    a.calculateZCoords()
+    for blk in blocks:
+        # the three assignments happened inside calculateZCoords: the object is compared once all three are replayed
+        for n in ("z", "zbottom", "ztop"):
+            _emit_assign(ses, blk, n, compare=(n == "ztop"))
+    tr = ses.grid_triple(a)
+    ses.log.append(f"calculateZCoords {ses.ids[id(a)]}")
+    ses.emit(f"grid {ses.ids[id(a)]} [{tr[0]},{tr[1]},{tr[2]}]", "ok " + ses.obj_line(a))
+    ses.ctx.count("axial mesh rebuilt (height + calculateZCoords)")
+    return True
+
+
+def grid_change(ses, h):
+    """one change of the grid held by h: hex / Cartesian pitch, in-place offset edit (rack), axial bounds"""
+    if type(h.spatialGrid).__name__ == "AxialGrid":
+        return do_axial(ses, h)
+    do_grid(ses, h)
+    return True
+
+
+def directed_nested_grid(ses, allobjs):
+    """two or three NESTED scopes over the same grid; the grid is changed BETWEEN entering the outer and the inner scope,
+    again inside the inner one (and possibly after it): every exit must bring the grid (pitch / bounds / offset, child
+    coordinates, block heights) back to its state at THAT scope's entry"""
+    rng = ses.rng
+    holders = [o for o in allobjs if o.spatialGrid is not None and not o.p.readOnly
+               and type(o.spatialGrid).__name__ in ("HexGrid", "CartesianGrid", "AxialGrid")]
+    if not holders:
+        return
+    kinds = sorted({type(o.spatialGrid).__name__ for o in holders})
+    want = rng.choice(kinds)
+    h = rng.choice([o for o in holders if type(o.spatialGrid).__name__ == want])
+    chain, x = [], h
+    while x is not None and any(x is o for o in allobjs):
+        chain.append(x); x = x.parent
+    levels = rng.randint(2, 3)
+
+    def level(k):
+        def inner():
+            grid_change(ses, h)                       # between this scope's entry and the next one's
+            if rng.random() < 0.4:
+                do_set(ses, rng.choice(allobjs))
+            if k > 1:
+                level(k - 1)
+                if rng.random() < 0.5:
+                    grid_change(ses, h)               # after the inner scope closed
+        scope(ses, allobjs, 1 + (levels - k), root=rng.choice(chain), keep=[] if rng.random() < 0.7 else None, script=inner)
+
+    level(levels)
+    ses.ctx.count(f"directed: nested scopes over one {want} with changes between the entries")
+
+
 def body(ses, allobjs, depth, nsteps):
     rng = ses.rng
     for _ in range(nsteps):
@@ -559,7 +650,7 @@ def body(ses, allobjs, depth, nsteps):
         elif k < 0.72:
             do_cache(ses, rng.choice(allobjs))
         elif k < 0.80:
-            do_grid(ses, rng.choice([o for o in allobjs if o.spatialGrid is not None]))
+            grid_change(ses, rng.choice([o for o in allobjs if o.spatialGrid is not None]))
         elif depth < 4:
             scope(ses, allobjs, depth + 1)
 
@@ -863,7 +954,7 @@ def do_readonly(ses, r, allobjs):
                      observed=c.getNumberDensity(nuc), expected=old)
 
 
-def api_stream(ctx, seq_seed):
+def _api_stream(ctx, seq_seed):
     """Oracle only: API-level mutators inside (nested) scopes; everything must come back."""
     rng = random.Random(seq_seed)
     with common.quiet():
@@ -876,8 +967,8 @@ def api_stream(ctx, seq_seed):
     blocks = [o for o in objs if type(o).__name__.endswith("Block")]
     assems = [o for o in objs if type(o).__name__.endswith("Assembly")]
 
-    def mutate():
-        k = rng.choice(["ndens", "ndens", "temp", "height", "pitch", "param", "ndensfactor", "cache"])
+    def mutate(k=None):
+        k = k or rng.choice(["ndens", "ndens", "temp", "height", "pitch", "param", "ndensfactor", "cache"])
         ctx.count(f"api mutation {k}")
         try:
             if k == "ndens":
@@ -922,6 +1013,8 @@ def api_stream(ctx, seq_seed):
                 phase[0] = "body"
                 for _ in range(rng.randint(1, 5)):
                     if depth < 4 and rng.random() < 0.3:
+                        if rng.random() < 0.6:
+                            mutate(rng.choice(["pitch", "height"]))   # between this scope's entry and the inner one's
                         nest(depth + 1)
                     else:
                         mutate()
@@ -964,7 +1057,7 @@ def api_stream(ctx, seq_seed):
     ctx.case(("api", seq_seed))
 
 
-def run_session(ctx, seq_seed, batch, nscopes):
+def _run_session(ctx, seq_seed, batch, nscopes):
     ses = Session(ctx, seq_seed, batch)
     rng = ses.rng
     with common.quiet():
@@ -983,10 +1076,12 @@ def run_session(ctx, seq_seed, batch, nscopes):
         with common.quiet():
             for _ in range(nscopes):
                 k = rng.random()
-                if k < 0.15:
+                if k < 0.12:
                     directed_kept_perturbation(ses, allobjs)
-                elif k < 0.3:
+                elif k < 0.24:
                     directed_nested_keep(ses, allobjs)
+                elif k < 0.40:
+                    directed_nested_grid(ses, allobjs)
                 elif k < 0.7:
                     scope(ses, allobjs, 1)
                 elif k < 0.85:
@@ -1011,6 +1106,33 @@ def run_session(ctx, seq_seed, batch, nscopes):
     ctx.case(("session", seq_seed), sample={"seq_seed": seq_seed, "ops": ses.log[:10]})
     ctx.traces += 1
     return ses
+
+
+def _guard(ctx, what, case, fn):
+    """no exception of a real-code call (building, copying, scoping, reading) may escape: it becomes a reported
+    failing input with the place it came from"""
+    import traceback
+
+    try:
+        return fn()
+    except common.Infra:
+        raise
+    except Exception as e:
+        tb = traceback.extract_tb(e.__traceback__)
+        inarmi = [f"{os.path.basename(f.filename)}:{f.lineno} {f.name}" for f in tb if "/armi/" in f.filename]
+        incheck = [f"{os.path.basename(f.filename)}:{f.lineno} {f.name}" for f in tb if "/harness/" in f.filename]
+        ctx.fail(f"{what}-raised-unexpected-exception",
+                 "building, copying, scoping and reading the reactor through the public API work (no step of the check's "
+                 "scenario raises)", case, observed={"exception": repr(e)[:200], "armi_frames": inarmi[-4:], "check_frames": incheck[-3:]})
+        return None
+
+
+def run_session(ctx, seq_seed, batch, nscopes):
+    return _guard(ctx, "retain-session", {"seq_seed": seq_seed}, lambda: _run_session(ctx, seq_seed, batch, nscopes))
+
+
+def api_stream(ctx, seq_seed):
+    return _guard(ctx, "retain-api-session", {"seq_seed": seq_seed, "stream": "api"}, lambda: _api_stream(ctx, seq_seed))
 
 
 def excluded_points(ctx):
@@ -1073,14 +1195,15 @@ def excluded_points(ctx):
 
 def run(ctx):
     batch = {"req": [], "impl": [], "cases": [], "mask_serial": set(), "serial_sets": {}}
-    fixture()
+    if _guard(ctx, "fixture-reactor", {"fixture": "smallestTestReactor"}, lambda: fixture() or True) is None:
+        return
     nses = ctx.pick(14, 300)
     for _ in range(nses):
         run_session(ctx, ctx.rng.randrange(1 << 40), batch, ctx.rng.randint(1, ctx.pick(5, 6)))
     for _ in range(ctx.pick(15, 200)):
         api_stream(ctx, ctx.rng.randrange(1 << 40))
     # last: the raising scope exit leaves the (process-global) definition back-up chains unbalanced
-    excluded_points(ctx)
+    _guard(ctx, "excluded-points", {"stream": "excluded"}, lambda: excluded_points(ctx))
     model = lean_run("Params", batch["req"])
     rows = []
     import re
@@ -1095,9 +1218,20 @@ def run(ctx):
             rows.append((c, m2, i2))
         else:
             rows.append((c, m, i))
+    # representation-dependent depth fields the harness could not read ('?') are left out on both sides
+    masked = []
+    for c, m, i in rows:
+        for tag in ("b", "cb", "gb"):
+            if f" {tag}? " in i + " ":
+                i = re.sub(rf" {tag}\? ", f" {tag}* ", i + " ").rstrip()
+                m = re.sub(rf" {tag}\d+ ", f" {tag}* ", m + " ").rstrip()
+                i = re.sub(rf" {tag}\d+ ", f" {tag}* ", i + " ").rstrip()
+        masked.append((c, m, i))
+    rows = masked
     ctx.compare("Model/Params.lean vs real parameter collections", [r[0] for r in rows], [r[1] for r in rows], [r[2] for r in rows])
     ctx.evaluations += len(rows)
-    ctx.samples.append({"request": batch["req"][-1][:200], "model": model[-1][:300], "impl": (batch["impl"][-1] or "")[:300]})
+    if batch["req"]:
+        ctx.samples.append({"request": batch["req"][-1][:200], "model": model[-1][:300], "impl": (batch["impl"][-1] or "")[:300]})
     ctx.rule = ("seeded sessions on the smallest test reactor (+0-2 added assembly copies): nested retainState scopes (depth <= 4) "
                 "on random objects, plain assignments of every value kind, random keep-sets, cache entries, hex pitch changes, "
                 "deepcopy/pickle points, makeParametersReadOnly; evaluations = compared protocol lines (one canonical dump of the "
